@@ -180,6 +180,22 @@ func tagsSorted(m spec.Message) (ok bool) {
 	return true
 }
 
+// ghostProbe returns "!GHOST<tag>" when a tag that is not in the table is reported present or readable.
+func ghostProbe(m spec.Message, tag int) string {
+	if tag > 65535 {
+		return ""
+	}
+	for i := 0; i < m.Fields(); i++ {
+		if t, ok := m.TagAt(i); ok && int(t) == tag {
+			return ""
+		}
+	}
+	if m.HasField(uint16(tag)) || len(m.Field(uint16(tag))) != 0 {
+		return "!GHOST" + strconv.Itoa(tag)
+	}
+	return ""
+}
+
 func walkField(root []byte, m spec.Message, i int, sorted bool) (out string) {
 	defer func() {
 		if e := recover(); e != nil {
@@ -198,5 +214,9 @@ func walkField(root []byte, m spec.Message, i int, sorted bool) (out string) {
 			byTag = "!TAGLOOKUP"
 		}
 	}
-	return tg + "=" + Walk(root, m.FieldAt(i)) + byTag
+	ghost := ""
+	if ok && sorted && i < 8 && m.Fields() <= 64 {
+		ghost = ghostProbe(m, int(tag)+256) + ghostProbe(m, (int(tag)+65280)%65536)
+	}
+	return tg + "=" + Walk(root, m.FieldAt(i)) + byTag + ghost
 }
